@@ -10,6 +10,7 @@ import (
 	"sync"
 	"time"
 
+	"github.com/VividCortex/ewma"
 	"github.com/mattn/go-runewidth"
 	"github.com/vbauerster/mpb/v8"
 	"github.com/vbauerster/mpb/v8/decor"
@@ -90,15 +91,23 @@ type Spec struct {
 	Delay     bool
 	FailWrite int
 	AutoOpt   bool // with Refresh "manual": WithAutoRefresh() is passed as well (manual refresh wins)
-	Bars      []BarSpec
-	Main      []Op
-	Clients   [][]Op
-	Main2     []Op // by main after the clients were started
-	Late      []Op // by main after Wait returned
-	NoWait    bool
-	Pty       bool // output is the slave end of a pseudo terminal of TermW x TermH
-	TermW     int
-	TermH     int
+	// UWG: the clients' WaitGroup is handed to the container with WithWaitGroup (Progress.Wait then joins the clients
+	// as well); NotifyByClient: the shutdown notifier's value is received by a client (op "recvnotify"), not by main
+	UWG            bool
+	NotifyByClient bool
+	// ReuseDecorSlice: decorators of every bar are passed as `scratch...` from one slice the program reuses for each bar
+	ReuseDecorSlice bool
+	// SharedExtender: one BarExtender option value, created once, is passed to every bar that has extender rows
+	SharedExtender bool
+	Bars           []BarSpec
+	Main           []Op
+	Clients        [][]Op
+	Main2          []Op // by main after the clients were started
+	Late           []Op // by main after Wait returned
+	NoWait         bool
+	Pty            bool // output is the slave end of a pseudo terminal of TermW x TermH
+	TermW          int
+	TermH          int
 }
 
 func (sp *Spec) String() string {
@@ -121,6 +130,12 @@ func (sp *Spec) String() string {
 	}
 	if sp.AutoOpt {
 		b.WriteString(" +autorefresh-option")
+	}
+	if sp.UWG {
+		b.WriteString(" user-waitgroup")
+	}
+	if sp.ReuseDecorSlice {
+		b.WriteString(" reused-decorator-slice")
 	}
 	if sp.FailWrite > 0 {
 		fmt.Fprintf(&b, " failwrite=%d", sp.FailWrite)
@@ -332,6 +347,12 @@ func (x *X) buildDecorR(r *runner, bar, side, ord int, ds DecorSpec) decor.Decor
 			d = decor.AverageETA(decor.ET_STYLE_GO, wc)
 		case "avgspeed":
 			d = decor.AverageSpeed(0, "%.1f", wc)
+		case "sharedavg-eta":
+			// every decorator of this kind in the program uses one average, wrapped for concurrent use
+			if x.sharedAvg == nil {
+				x.sharedAvg = decor.NewThreadSafeMovingAverage(ewma.NewMovingAverage())
+			}
+			d = decor.MovingAverageETA(decor.ET_STYLE_GO, x.sharedAvg, nil, wc)
 		default:
 			d = decor.Name(ds.Builtin, wc)
 		}
@@ -425,6 +446,9 @@ type runner struct {
 	wg      *sync.WaitGroup
 	scratch [512]byte
 	pty     *Pty
+	// user-side values deliberately reused between bars
+	sharedExt    mpb.BarOption
+	decorScratch []decor.Decorator
 }
 
 var errFill = errors.New("filler failed")
@@ -494,7 +518,18 @@ func (r *runner) barOptions(i int) (mpb.BarFiller, []mpb.BarOption) {
 			return base
 		}))
 	}
-	if bs.ExtRows > 0 || bs.ExtErrAt > 0 {
+	if r.sp.SharedExtender && bs.ExtRows > 0 {
+		if r.sharedExt == nil {
+			rows := bs.ExtRows
+			r.sharedExt = mpb.BarExtender(mpb.BarFillerFunc(func(w io.Writer, st decor.Statistics) error {
+				for k := 0; k < rows; k++ {
+					fmt.Fprintf(w, "[x%d.%d]\n", st.ID, k)
+				}
+				return nil
+			}), bs.ExtRev)
+		}
+		opts = append(opts, r.sharedExt)
+	} else if bs.ExtRows > 0 || bs.ExtErrAt > 0 {
 		next := 0
 		opts = append(opts, mpb.BarExtender(mpb.BarFillerFunc(func(w io.Writer, st decor.Statistics) error {
 			next++
@@ -521,6 +556,18 @@ func (r *runner) barOptions(i int) (mpb.BarFiller, []mpb.BarOption) {
 	for k, ds := range bs.App {
 		app = append(app, x.buildDecorR(r, i, 1, k, ds))
 	}
+	if r.sp.ReuseDecorSlice {
+		// the program builds each bar's decorator lists in one scratch slice that it reuses for the next bar
+		r.decorScratch = append(r.decorScratch[:0], pre...)
+		if len(pre) > 0 {
+			opts = append(opts, mpb.PrependDecorators(r.decorScratch[:len(pre)]...))
+		}
+		if len(app) > 0 {
+			tail := append(r.decorScratch[len(pre):len(pre)], app...)
+			opts = append(opts, mpb.AppendDecorators(tail...))
+		}
+		return filler, opts
+	}
 	if len(pre) > 0 {
 		opts = append(opts, mpb.PrependDecorators(pre...))
 	}
@@ -536,7 +583,7 @@ func (r *runner) do(client int, op Op) {
 	x := r.x
 	var bar *mpb.Bar
 	switch op.K {
-	case "add", "write", "writebuf", "refresh", "cancel", "shutdown", "undelay", "yield", "sleep", "pwait", "join", "closepty":
+	case "add", "write", "writebuf", "refresh", "cancel", "shutdown", "undelay", "yield", "sleep", "recvnotify", "pwait", "join", "closepty":
 	default:
 		if op.B < 0 || op.B >= len(r.bars) || r.bars[op.B] == nil {
 			x.Calls = append(x.Calls, Call{Client: client, Op: op.String(), Inv: mcrt.Step(), Ret: mcrt.Step() + 1, Res: "skipped"})
@@ -616,6 +663,9 @@ func (r *runner) do(client int, op Op) {
 			r.p.Shutdown()
 		case "undelay":
 			close(r.delay)
+		case "recvnotify":
+			v := <-r.notify
+			x.Notified = append(x.Notified, v)
 		case "sleep":
 			time.Sleep(time.Duration(op.N) * time.Millisecond)
 		case "yield":
@@ -714,12 +764,15 @@ func (sp *Spec) Run(x *X) {
 		r.delay = make(chan struct{})
 		opts = append(opts, mpb.WithRenderDelay(r.delay))
 	}
+	var wg sync.WaitGroup
+	r.wg = &wg
+	if sp.UWG {
+		opts = append(opts, mpb.WithWaitGroup(&wg))
+	}
 	r.p = mpb.NewWithContext(ctx, opts...)
 	for _, op := range sp.Main {
 		r.do(0, op)
 	}
-	var wg sync.WaitGroup
-	r.wg = &wg
 	for ci, ops := range sp.Clients {
 		ci, ops := ci, ops
 		wg.Add(1)
@@ -744,7 +797,7 @@ func (sp *Spec) Run(x *X) {
 		r.stopRefresh()
 	}
 	wg.Wait()
-	if sp.Notifier && !sp.NoWait {
+	if sp.Notifier && !sp.NoWait && !sp.NotifyByClient {
 		v := <-r.notify
 		x.Notified = append(x.Notified, v)
 		if bars, ok := v.([]*mpb.Bar); ok {
